@@ -148,7 +148,7 @@ class World(object):
         except RecursionError:
             self.recording = False
             return ['SOut %d OCrash' % (self.cur or 0)]
-        except Exception as e:      # judged by the monitor: nothing may escape from these entry points
+        except BaseException as e:  # judged by the monitor: nothing may escape from these entry points
             self.recording = False
             return self._render_outs() + ['SRaise (* %s escaped from %s *)' % (type(e).__name__, kind)]
         raise ValueError('unknown operation %r' % (op,))
